@@ -38,6 +38,8 @@ def build_plain(case: dict) -> Graph:
             inputs[iname] = nodes[parent].get_output(oname)
             consumed.add(parent)
         nodes[nd["name"]] = Node(nd["name"], outputs=list(nd["outs"]), payload=ast.literal_eval(nd["payload"]), **inputs)
+    if case.get("sinks", "terminals") == "all":
+        return Graph(list(nodes.values()))
     return Graph([n for name, n in nodes.items() if name not in consumed])
 
 
@@ -45,6 +47,7 @@ def build_fluent(case: dict) -> Graph:
     n = case["n"]
     yields = ("y", list(range(case["yields"]))) if case["yields"] else None
     a = fluent.from_source(np.array([src] * n), yields=yields, dims=["x"])
+    first = a
     for op in case["ops"]:
         if op == "map":
             a = a.map(fn)
@@ -56,6 +59,8 @@ def build_fluent(case: dict) -> Graph:
             a = a.multiply(2.0)
         else:
             raise ValueError(op)
+    if case.get("union"):
+        return Cascade.from_actions([first, a])._graph
     return a.graph()
 
 
@@ -113,7 +118,7 @@ def judge_env(cases_file) -> dict:
 
 
 def run(ctx):
-    consts = {"MaxN": "3", "MaxPayN": "2", "MaxRichN": "2" if ctx.quick else "3", "MaxOps": "2" if ctx.quick else "3"}
+    consts = {"MaxN": "3", "MaxPayN": "1" if ctx.quick else "2", "MaxRichN": "2" if ctx.quick else "3", "MaxOps": "2" if ctx.quick else "3"}
     cases_file, cases = p3.generate(ctx, "GraphSerde", consts)
     ctx.log(f"{len(cases)} cases")
     results = [result_of(c, ctx.scratch) for c in cases]
@@ -132,8 +137,8 @@ def run(ctx):
                 f"that coincide with output names 'a'/'b'/'0' rotated, and with input names / serialisation keys), per node one of 5 output "
                 f"lists ([], ['0'], ['a'], ['a','b'], ['0','a']; only [], ['0'], ['a','b'] beyond {consts['MaxRichN']} nodes), inputs x/y each absent or bound to any output of an earlier node, "
                 f"payloads rotated through 14 literals (all rotations up to {consts['MaxPayN']} nodes, 1-2 beyond); "
-                f"!Fluent: from_source over 1..3 sources (single/two-output) followed by <= {consts['MaxOps']} of map/reduce/add/"
-                "scale; all enumerated by TLC; non-trivial = has an edge or is fluent; TLC evaluates GraphSerde!Post on every "
+                f"each graph with an edge also with a sink list that names every node (consumed ones included); !Fluent: from_source over 1..3 sources (single/two-output) followed by <= {consts['MaxOps']} of map/reduce/add/"
+                "scale, as the action's own graph and as the union Cascade.from_actions([sources, action]); all enumerated by TLC; non-trivial = has an edge or is fluent; TLC evaluates GraphSerde!Post on every "
                 "(case, dumps of deserialise(serialise(g)), from_json(to_json(g)), Cascade file round trip)",
         "clauses": [f"{t}_{c}" for t in ("dict", "json", "file") for c in
                     ("raised", "nodes_lost", "nodes_invented", "node_listed_twice", "outputs_differ", "inputs_differ",
